@@ -283,8 +283,20 @@ func cmdCheck(args []string) int {
 				}
 				continue
 			}
-			fmt.Fprintf(os.Stderr, "ENGINE-FAULT %s: %v\n", rep.Ctr.Name, rep.Err)
-			faults++
+			if strings.Contains(rep.Err.Error(), "engine:") && !strings.Contains(rep.Err.Error(), "fatal: contract of") {
+				fmt.Fprintf(os.Stderr, "ENGINE-FAULT %s: %v\n", rep.Ctr.Name, rep.Err)
+				faults++
+				continue
+			}
+			// the contract can no longer be evaluated against the code (a call, loop, parameter or local it is keyed to is gone):
+			// on the unchanged tree every contract evaluates, so this is reported as a failed obligation (DESIGN 2.7)
+			o := &Obligation{Name: funcKeyStr(rep.Ctr.Pkg+"."+rep.Ctr.Name) + "#contract", Kind: "contract", Func: rep.Ctr.Name, Desc: rep.Err.Error(), Props: rep.Ctr.AllProps}
+			if kf := isKnown(o.Name); kf != nil {
+				knownMatched = append(knownMatched, o.Name)
+				lines = append(lines, fmt.Sprintf("KNOWN-FINDING: property=%s %s %s", *prop, o.Name, kf.What))
+			} else {
+				report(o, "the contract no longer applies to the code: "+truncate(rep.Err.Error(), 300), nil)
+			}
 		}
 	}
 	for _, r := range results {
